@@ -33,8 +33,9 @@ def one_step(c: Dict[str, Any]) -> Dict[str, Any]:
         layer = uu.Linear(fi, fo, dtype=torch.float64, **kw)
     elif kind == "readout":
         layer = uu.LinearReadout(fi, fo, dtype=torch.float64, **kw)
-    else:
-        layer = uu.Conv1d(fi, fo, k, dtype=torch.float64, **kw)
+    else:   # fanIn is the fan-in of ONE output channel (weight.shape[1]); with groups the layer has groups x fanIn input channels
+        gr = c.get("groups", 1)
+        layer = uu.Conv1d(fi * gr, fo, k, groups=gr, dtype=torch.float64, **kw)
     with torch.no_grad():
         layer.weight.copy_(torch.randn(layer.weight.shape, generator=g, dtype=torch.float64))
     if depth > 0:   # depth = number of layers of the depth container, however the container is built
@@ -52,7 +53,7 @@ def one_step(c: Dict[str, Any]) -> Dict[str, Any]:
         else:
             uu.DepthModuleList(m for m in mods)
     sign = lambda shape: (torch.randint(0, 2, shape, generator=g).to(torch.float64) * 2 - 1)
-    x = sign((1, fi, k)) if kind == "conv1d" else sign((1, fi))
+    x = sign((1, fi * c.get("groups", 1), k)) if kind == "conv1d" else sign((1, fi))
     # how the layer reaches the optimizer: alone, or in explicit groups together with other (wider / deeper) layers --
     # its update must not depend on the company it keeps
     form = c.get("form", "plain")
@@ -89,7 +90,12 @@ def gen_cases(rng: random.Random, n: int) -> List[Dict[str, Any]]:
         depth = rng.choice([0, 0, 1, 2, 3, 16, 64, rng.randint(1, 64)])
         if fi * k * max(depth, 1) >= 1 << 24:
             depth = 0
-        out.append({"kind": "update", "layer": kind, "fanIn": fi, "fanOut": fo, "k": k, "depth": depth,
+        groups = 1
+        if kind == "conv1d" and rng.random() < 0.5:
+            groups = rng.choice([2, 3, 4])
+            fo = max(groups, (fo // groups) * groups)        # out_channels divisible by groups
+            fi = max(1, fi // groups)                        # per-group fan-in
+        out.append({"kind": "update", "layer": kind, "fanIn": fi, "fanOut": fo, "k": k, "depth": depth, "groups": groups,
                     "eta": 10 ** rng.uniform(-4, 0), "opt": rng.choice(["Adam", "AdamW"]),
                     "constraint": rng.choice(["default", "none"]), "seed": rng.randrange(1 << 30),
                     "form": rng.choice(["plain", "plain", "group_after", "group_before", "two_groups", "tensor_lr_group"]),
@@ -101,7 +107,7 @@ def judge(rep: Report, c: Dict[str, Any], e: Dict[str, Any], obs: Dict[str, Any]
     f2 = Fraction(e["f2"][0], e["f2"][1])
     want = c["eta"] * math.sqrt(float(f2))
     worst = max(abs(a - want) / want for a in obs["abs"])
-    label = f"[{c.get('form', 'plain')}, depth via {c.get('container', 'seq_args')}] {c['layer']} fan_in={c['fanIn']} fan_out={c['fanOut']} k={c['k']} depth={c['depth']} eta={c['eta']:.4g} {c['opt']} constraint={c['constraint']}"
+    label = f"[{c.get('form', 'plain')}, depth via {c.get('container', 'seq_args')}] {c['layer']} fan_in={c['fanIn']} fan_out={c['fanOut']} k={c['k']} groups={c.get('groups', 1)} depth={c['depth']} eta={c['eta']:.4g} {c['opt']} constraint={c['constraint']}"
     if worst > 1e-9 or not obs["sign_ok"]:
         rep.violation(
             f"output moved by {obs['abs'][0] / c['eta']:.9g} x eta (worst rel. deviation {worst:.3g}); spec UpdateSize2 = {f2} i.e. {math.sqrt(float(f2)):.9g} x eta for {label}",
